@@ -107,6 +107,7 @@ def run_shards(prop, specs, workdir, timeout):
             if os.path.exists(r["of"]):
                 with open(r["of"]) as f:
                     results[r["i"]] = ser.loads(f.read())
+                results[r["i"]]["shard_wall_s"] = round(time.time() - r["t0"], 1)
             else:
                 tail = open(os.path.join(workdir, "log%d.txt" % r["i"])).read()[-3000:]
                 results[r["i"]] = {"crashed": True, "rc": rc, "log_tail": tail, "spec_name": r["spec"].get("name")}
@@ -234,6 +235,7 @@ def finish(prop, mod, tier, seed, specs, results, wall):
         "monitor_counters": ser.plain(merged["counters"]),
         "not_completed": ser.plain(merged["not_completed"]),
         "shards": len(specs),
+        "shard_wall_s": {spec.get("name", "?"): (r or {}).get("shard_wall_s") for spec, r in zip(specs, results)},
         "known_findings_observed": {k: v["n"] for k, v in known_lines.items()},
         "inconclusive_reasons": merged["inconclusive"][:10],
     }
